@@ -76,7 +76,7 @@ pub fn run(seed: u64, out: &str, millis: u64) -> bool {
                     if token as usize >= written_key.len() { break; }
                     written_key[token as usize].store(key, Ordering::SeqCst);
                     let began = seq.fetch_add(1, Ordering::SeqCst);
-                    let status = match cache.put(key, token) { Ok(ack) => wait_done(&ack), Err(_) => break };
+                    let status = match cache.put(key, token) { Ok(ack) => wait_done(&ack), Err(_) => { violations.lock().unwrap().push("C17/worker-died stress: a write was refused with Err although shutdown() had not been called (the command executor is gone)".to_string()); break } };
                     if status == CommandStatus::Pending { violations.lock().unwrap().push(format!("C12/never-resolved put({},{})", key, token)); break; }
                     record(&logs[key as usize], Op { begin: began, effective: seq.fetch_add(1, Ordering::SeqCst), token, applies: status == CommandStatus::Accepted, is_delete: false });
                     if status != CommandStatus::Accepted { continue; }
@@ -91,7 +91,7 @@ pub fn run(seed: u64, out: &str, millis: u64) -> bool {
                             let status = wait_done(&ack);
                             if status == CommandStatus::Pending { violations.lock().unwrap().push(format!("C12/never-resolved delete({})", key)); break; }
                         }
-                        Err(_) => break,
+                        Err(_) => { violations.lock().unwrap().push("C17/worker-died stress: a write was refused with Err although shutdown() had not been called (the command executor is gone)".to_string()); break },
                     }
                 }
             }));
@@ -150,7 +150,7 @@ pub fn run(seed: u64, out: &str, millis: u64) -> bool {
                     written_key[token as usize].store(key, Ordering::SeqCst);
                     let began = seq.fetch_add(1, Ordering::SeqCst);
                     let request = tinylfu_cached::cache::put_or_update::PutOrUpdateRequestBuilder::new(key).value(token).build();
-                    let status = match cache.put_or_update(request) { Ok(ack) => wait_done(&ack), Err(_) => break };
+                    let status = match cache.put_or_update(request) { Ok(ack) => wait_done(&ack), Err(_) => { violations.lock().unwrap().push("C17/worker-died stress: a write was refused with Err although shutdown() had not been called (the command executor is gone)".to_string()); break } };
                     if status == CommandStatus::Pending { violations.lock().unwrap().push(format!("C12/never-resolved put_or_update({},{})", key, token)); break; }
                     record(&logs[key as usize], Op { begin: began, effective: seq.fetch_add(1, Ordering::SeqCst), token, applies: status == CommandStatus::Accepted, is_delete: false });
                     if n % 4 == 0 { std::thread::sleep(Duration::from_micros(30)); }
@@ -168,8 +168,8 @@ pub fn run(seed: u64, out: &str, millis: u64) -> bool {
                 let mut key = 1_000_000u64;
                 while !stop.load(Ordering::Relaxed) {
                     key += 1;
-                    let put = match cache.put_with_weight(key, key, 1) { Ok(ack) => ack, Err(_) => break };
-                    let delete = match cache.delete(key) { Ok(ack) => ack, Err(_) => break };
+                    let put = match cache.put_with_weight(key, key, 1) { Ok(ack) => ack, Err(_) => { violations.lock().unwrap().push("C17/worker-died stress: a write was refused with Err although shutdown() had not been called (the command executor is gone)".to_string()); break } };
+                    let delete = match cache.delete(key) { Ok(ack) => ack, Err(_) => { violations.lock().unwrap().push("C17/worker-died stress: a write was refused with Err although shutdown() had not been called (the command executor is gone)".to_string()); break } };
                     let delete_status = wait_done(&delete);
                     let put_done_by_then = put.verif_peek().0;
                     let put_status = wait_done(&put);
@@ -205,7 +205,7 @@ pub fn run(seed: u64, out: &str, millis: u64) -> bool {
         let joined_by = Instant::now() + Duration::from_secs(30);
         for thread in threads {
             while !thread.is_finished() && Instant::now() < joined_by { std::thread::sleep(Duration::from_millis(2)); }
-            if thread.is_finished() { let _ = thread.join(); } else { violations.lock().unwrap().push("C18/hang a stress thread did not finish".to_string()); }
+            if thread.is_finished() { if thread.join().is_err() { violations.lock().unwrap().push("C17/caller-panic stress: a client thread of the stress round panicked (every input of the round is valid)".to_string()); } } else { violations.lock().unwrap().push("C18/hang a stress thread did not finish".to_string()); }
         }
         let summary = cache.stats_summary();
         let (hits, added, dropped) = (summary.get(&StatsType::CacheHits).unwrap_or(0), summary.get(&StatsType::AccessAdded).unwrap_or(0), summary.get(&StatsType::AccessDropped).unwrap_or(0));
@@ -218,6 +218,7 @@ pub fn run(seed: u64, out: &str, millis: u64) -> bool {
         }
         let tokens = next_token.load(Ordering::SeqCst);
         let reads = seq.load(Ordering::SeqCst);
+        if tokens < 50 || reads < 50 { violations.lock().unwrap().push(format!("C18/hang stress round {} made no progress: {} writes, {} events", round, tokens, reads)); }
         sink.both(&format!("# case stress round={} shards={} cmdcap={} max={} tokens={} events={}", round, shards, cmdcap, max, tokens, reads));
         let found = violations.lock().unwrap().clone();
         let mut distinct: Vec<String> = Vec::new();
@@ -231,6 +232,15 @@ pub fn run(seed: u64, out: &str, millis: u64) -> bool {
     if !hammer(&mut sink, millis) { all_ok = false; }
     sink.flush();
     if !cold_put_under_drain(&mut sink, millis) { all_ok = false; }
+    sink.flush();
+    // every input of every round and phase is valid: a panic on ANY thread — a client, the worker, the sweeper, the
+    // consumer — is a finding even when nothing else noticed (a background thread that dies late leaves the identities intact)
+    let panics: Vec<String> = std::mem::take(&mut *crate::PANIC_LOG.lock().unwrap());
+    sink.both(&format!("# case stress panics={}", panics.len()));
+    for panic in panics.iter().take(5) { sink.both(&format!("# panic {}", panic)); }
+    writeln!(sink.input, "S monitors").unwrap();
+    writeln!(sink.implementation, "R {}", if panics.is_empty() { "clean".to_string() } else { format!("violations C17/panic-under-valid-input stress: {}", panics[0]) }).unwrap();
+    if !panics.is_empty() { all_ok = false; }
     sink.flush();
     all_ok
 }
@@ -280,11 +290,14 @@ fn cold_put_under_drain(sink: &mut Sink, millis: u64) -> bool {
                 found.push(format!("C14/estimate-undercounts under consumer load: a resident with {} delivered accesses was treated as no hotter than never-read key {} (put answered {:?}): its estimate was read as 0", delivered, cold, status));
                 break;
             }
-            Err(_) => break,
+            Err(_) => { found.push("C17/worker-died under consumer load: a put was refused with Err although shutdown() had not been called".to_string()); break }
         }
     }
     stop.store(true, Ordering::SeqCst);
-    let reads = reader.join().unwrap_or(0);
+    let reads = match reader.join() { Ok(reads) => reads, Err(_) => { found.push("C17/caller-panic under consumer load: the reading thread panicked".to_string()); 0 } };
+    if !accepted || !warmed || puts < 10 {
+        found.push(format!("C18/hang under consumer load: the phase did not get going (resident accepted: {}, first batch delivered within 30 s: {}, cold puts completed: {})", accepted, warmed, puts));
+    }
     if accepted && warmed && found.is_empty() && cache.get(&hot) != Some(100) {
         found.push("C06/cold-key-evicted-hot-key under consumer load: the resident is gone although every put was refused".to_string());
     }
@@ -308,11 +321,12 @@ fn hammer(sink: &mut Sink, millis: u64) -> bool {
         .ttl_tick_duration(Duration::from_millis(1)).build();
     let cache = Arc::new(CacheD::<u64, u64>::new(config));
     let stop = Arc::new(AtomicBool::new(false));
+    let refused_writes = Arc::new(AtomicU64::new(0));
     type Ack = Arc<tinylfu_cached::cache::command::acknowledgement::CommandAcknowledgement>;
     struct Record { key: u64, ttl: bool, put: Ack, delete: Option<Ack> }
     let mut threads = Vec::new();
     for t in 0..8u64 {
-        let (cache, stop) = (cache.clone(), stop.clone());
+        let (cache, stop, refused_writes) = (cache.clone(), stop.clone(), refused_writes.clone());
         threads.push(std::thread::spawn(move || {
             let mut records: Vec<Record> = Vec::new();
             let mut lookups = 0u64;
@@ -322,7 +336,7 @@ fn hammer(sink: &mut Sink, millis: u64) -> bool {
                 let key = base + i;
                 let ttl = i % 4 == 0;
                 let put = if ttl { cache.put_with_weight_and_ttl(key, key, 1, Duration::from_secs(1)) } else { cache.put_with_weight(key, key, 1) };
-                let put = match put { Ok(ack) => ack, Err(_) => break };
+                let put = match put { Ok(ack) => ack, Err(_) => { refused_writes.fetch_add(1, Ordering::SeqCst); break } };
                 records.push(Record { key, ttl, put, delete: None });
                 if i % 8 == 7 { lookups += 1; let _ = cache.get(&key); }
                 if i % 16 == 15 {
@@ -338,8 +352,15 @@ fn hammer(sink: &mut Sink, millis: u64) -> bool {
     stop.store(true, Ordering::SeqCst);
     let mut records: Vec<Record> = Vec::new();
     let mut lookups = 0u64;
-    for thread in threads { if let Ok((mut r, l)) = thread.join() { records.append(&mut r); lookups += l; } }
     let mut found: Vec<String> = Vec::new();
+    for thread in threads {
+        match thread.join() {
+            Ok((mut r, l)) => { records.append(&mut r); lookups += l; }
+            Err(_) => found.push("C17/caller-panic hammer: a writer thread panicked (every input is valid)".to_string()),
+        }
+    }
+    if refused_writes.load(Ordering::SeqCst) > 0 { found.push("C17/worker-died hammer: a put was refused with Err although shutdown() had not been called (the command executor is gone)".to_string()); }
+    if records.len() < 100 { found.push(format!("C18/hang hammer: eight writer threads completed only {} calls", records.len())); }
     let (mut accepted_puts, mut accepted_deletes, mut refused) = (0u64, 0u64, 0u64);
     let mut expected_live: std::collections::BTreeSet<u64> = std::collections::BTreeSet::new();    // after everything expired
     let mut expected_held: u64 = 0;                                                                   // before anything expired
